@@ -266,7 +266,7 @@ func ruleUTC(w *World, r *Report) {
 		// any reference to time.Local / time.LoadLocation
 		var ops []*ssa.Value
 		for _, op := range in.Operands(ops) {
-			if g, ok := (*op).(*ssa.Global); ok && g.Pkg != nil && g.Pkg.Pkg.Path() == "time" && g.Name() == "Local" {
+			if g, ok := (*op).(*ssa.Global); ok && g.Pkg != nil && g.Pkg.Pkg.Path() == "time" && nm(g) == "Local" {
 				clean = false
 				r.Fail(rule, w.InstrPos(in), name, "use of time.Local", "the encoding depends on the machine's time zone")
 			}
